@@ -1,13 +1,16 @@
 (* Property C17 — verifyObject / verifyClass accept exactly the candidates meeting the contract.
-   Only statements here; proofs are in Proofs/Verify.v.  [incompat] is Gen/Incompat.v, the
-   translation of verify.py:_incompat regenerated on every run, so these statements are about
-   the arity rules the source contains NOW.
+   Only statements here; proofs are in Proofs/Verify.v and Proofs/VerifyKernel.v.  [incompat] is
+   Gen/Incompat.v, the translation of verify.py:_incompat regenerated on every run, so these
+   statements are about the arity rules the source contains NOW; gen_verify_element / gen_verify /
+   gen_verifyClass / gen_verifyObject / gen_from_method are Gen/VerifyKernel.v, the translation of
+   the rest of verify.py (and of interface.py:fromMethod) regenerated on every run, and the
+   C17_generated_* theorems show the model [verify] the other theorems are about IS that code.
    sig = (req, npos, varargs, kwargs); shape = (k positional arguments, an unknown keyword?);
    admits / binds / call_binds / callee / spec_failures / elem_wf: Spec/Binds.v;
    verify / from_function / err_class: Model/Verify.v. *)
 From Coq Require Import List Arith Bool.
 Import ListNotations.
-From ZI Require Import Spec.Binds Model.Verify Gen.Incompat Proofs.Verify.
+From ZI Require Import Spec.Binds Model.Verify Gen.Incompat Proofs.Verify Gen.VerifyKernel Proofs.VerifyKernel.
 
 (* _incompat finds nothing to complain about exactly when every call shape the interface's
    signature admits binds to the implementation's signature — all arities, no bound *)
@@ -96,6 +99,39 @@ Theorem C17_outcome_by_failure_count : forall vt tentative declares cand_is_type
 Proof. exact outcome_by_count. Qed.
 Print Assumptions C17_outcome_by_failure_count.
 
+(* ---- the regenerated transcription of verify.py equals the model, for all inputs ---- *)
+
+(* _verify_element: attribute lookup and its AttributeError handling, the isinstance case
+   analysis, the imlevel selection, the argument order of the _incompat call *)
+Theorem C17_generated_verify_element_eq_model : forall vt cand_is_type e,
+  gen_verify_element vt cand_is_type e = verify_element incompat vt cand_is_type e.
+Proof. exact gen_verify_element_eq. Qed.
+Print Assumptions C17_generated_verify_element_eq_model.
+
+(* _verify: tester selection (implementedBy for 'c', providedBy otherwise), the tentative
+   check, the collecting loop, the none / one / many policy *)
+Theorem C17_generated_verify_eq_model : forall vt tentative implemented_by provided_by cand_is_type elems,
+  gen_verify vt tentative implemented_by provided_by cand_is_type elems
+  = verify incompat vt tentative (match vt with VClass => implemented_by | VObject => provided_by end)
+           cand_is_type elems.
+Proof. exact gen_verify_eq. Qed.
+Print Assumptions C17_generated_verify_eq_model.
+
+(* verifyClass / verifyObject *)
+Theorem C17_generated_verify_wrappers_eq_model : forall tentative implemented_by provided_by cand_is_type elems,
+  gen_verifyClass tentative implemented_by provided_by cand_is_type elems
+  = verify incompat VClass tentative implemented_by cand_is_type elems /\
+  gen_verifyObject tentative implemented_by provided_by cand_is_type elems
+  = verify incompat VObject tentative provided_by cand_is_type elems.
+Proof. exact gen_wrappers_eq. Qed.
+Print Assumptions C17_generated_verify_wrappers_eq_model.
+
+(* interface.py: fromMethod strips one parameter, fromFunction none unless told *)
+Theorem C17_generated_verify_from_method_eq_model :
+  (forall raw, gen_from_method raw = from_method raw) /\ gen_from_function_default_imlevel = 0.
+Proof. exact (conj gen_from_method_eq gen_default_imlevel_eq). Qed.
+Print Assumptions C17_generated_verify_from_method_eq_model.
+
 (* ---- non-vacuity ---- *)
 
 (* def m(a, b=1, *args, **kw) against def m(self, a, *rest, **kw): compatible *)
@@ -151,3 +187,9 @@ Proof. vm_compute. repeat split; try discriminate. eexists. reflexivity. Qed.
 
 Example ex_ok : verify incompat VObject false true false [nth 1 ex_elems (0, DAttr, VMissing); (3, DMethod (mkSig 1 1 false false), VBuiltin)] = Ok.
 Proof. vm_compute. reflexivity. Qed.
+
+(* the generated code computes, e.g. the MultipleInvalid of ex_multiple, through verifyObject *)
+Example ex_generated :
+  exists m, gen_verifyObject false false false false ex_elems
+            = Multiple [EDoesNotImplement; EBrokenImplementation 0; EBrokenMethod 2 m].
+Proof. vm_compute. eexists. reflexivity. Qed.
